@@ -55,6 +55,18 @@ Section LockOrder.
   Definition well_nested (evs : list ev) : bool :=
     match lifo_run [] evs with Some [] => true | _ => false end.
 
+  (* order discipline and LIFO releases checked together *)
+  Fixpoint strict_run (h : list key) (evs : list ev) : option (list key) :=
+    match evs with
+    | [] => Some h
+    | Acq k :: r => if above h k then strict_run (k :: h) r else None
+    | AcqFail k :: r => if above h k then strict_run h r else None
+    | Rel k :: r => match h with
+                    | x :: t => if eqb k x then strict_run t r else None
+                    | [] => None
+                    end
+    end.
+
   (* maximal number of keys held at once *)
   Fixpoint max_held (cur : nat) (evs : list ev) : nat :=
     match evs with
